@@ -30,3 +30,19 @@ pub fn fcntl_set_file_status(fd: Fd, flag: OpenFlags) -> Result<()> {
     bail_on_below_zero!(res, "`FCNTL` syscall failed");
     Ok(())
 }
+
+/// Duplicate `fd` onto the lowest free descriptor number `>= min`, with `O_CLOEXEC` set on the copy
+/// See the [Linux documentation for details](https://man7.org/linux/man-pages/man2/fcntl.2.html)
+/// # Errors
+/// See above
+pub fn fcntl_dupfd_cloexec(fd: Fd, min: Fd) -> Result<Fd> {
+    let res = unsafe {
+        syscall!(
+            FCNTL,
+            fd.0,
+            linux_rust_bindings::fcntl::F_DUPFD_CLOEXEC,
+            min.0
+        )
+    };
+    Fd::coerce_from_register(res, "`FCNTL` syscall failed")
+}
